@@ -9,7 +9,7 @@ for l in open(os.path.join(SD,'RESULTS.jsonl')):
     res[(r['seed'],r['prop'])]=r
 rows=[]
 for s in sorted(d for d in os.listdir(SD) if os.path.isdir(os.path.join(SD,d))):
-    pid=s.split('-')[0]
+    pid=re.match(r'C\d+',s).group(0)
     m=json.load(open(os.path.join(SD,s,'meta.json'))) if os.path.exists(os.path.join(SD,s,'meta.json')) else {}
     r=res.get((s,pid))
     files=','.join(os.path.basename(f) for f in m.get('files_touched',[]))
